@@ -116,3 +116,32 @@ CHECKS['C07'] = dict(
         U('lib', 'TestVerifC0607_Regress', q(), q()),
         U('lib', 'TestVerifC07_LibOriginalLine', q(9600, 16), q(192000, 16, cap=1800)),
     ])
+
+CHECKS['C10'] = dict(
+    title='Field expressions select exactly the documented fields',
+    rule='lines over {a,b,e-acute,CJK,space,tab,comma,semicolon,colon,x,1} with leading/trailing/consecutive delimiters x AWK / literal (1-2 chars) / regex delimiters (incl. one matching the empty string); '
+         'exhaustive table of every range spelling with bounds in -4..4 x 0..5 fields; random range lists with bounds in -7..7; --nth matching with positions checked against the full line. '
+         'non-trivial = >=3 fields, a negative or out-of-range bound, or a multi-byte first character',
+    assumptions=[
+        'observed convention adopted by the model where the documentation is silent: a literal delimiter yields a final empty field when the line ends with it, a regex delimiter does not',
+        '--nth completeness (term matches inside a selected field => line matches) is asserted for terms without blanks/delimiter characters and for fuzzy/exact/boundary/prefix kinds',
+    ],
+    units=[
+        U('inpkg', 'TestVerifC10_RangesExhaustive', q(), q(), pkg='src'),
+        U('inpkg', 'TestVerifC10_Tokenize', q(160000, 16), q(3200000, 16, cap=1800), pkg='src'),
+        U('inpkg', 'TestVerifC10_RangesRandom', q(80000, 16), q(1600000, 16, cap=1800), pkg='src'),
+        U('inpkg', 'TestVerifC10_NthMatch', q(80000, 16), q(1600000, 16, cap=1800), pkg='src'),
+    ])
+
+CHECKS['C11'] = dict(
+    title='--ansi strips escape sequences only and colours the right characters',
+    rule='(i) arbitrary bytes biased to ESC [ ] ( ) \\\\ ; : ? digits m K BEL BS SO SI LF, multi-byte and invalid UTF-8: stripped text == specification regex, spans well-formed; '
+         '(ii) grammar: text chunks interleaved with well-formed SGR (16/256/24-bit colours, attributes, resets, several parameters), OSC-8 open/close (ST and BEL), other CSI/ESC/charset sequences, SO/SI, struck-out characters, '
+         '1-3 consecutive lines carrying the state over: per-character (fg,bg,attr,url) == SGR interpreter. non-trivial = >=2 sequences and a text chunk after a sequence',
+    assumptions=['the stripping specification is the regular expression quoted in src/ansi.go plus the hyperlink terminator ESC]8;;ESC emitted by fzf itself',
+                 'only well-formed SGR parameters from the documented set are generated for the colouring equality (no empty sub-parameters, no mixed ; and : separators)'],
+    units=[
+        U('inpkg', 'TestVerifC11_Regress', q(), q(), pkg='src'),
+        U('inpkg', 'TestVerifC11_ArbitraryBytes', q(320000, 16), q(4800000, 16, cap=1800), pkg='src'),
+        U('inpkg', 'TestVerifC11_Grammar', q(160000, 16), q(2400000, 16, cap=1800), pkg='src'),
+    ])
